@@ -25,6 +25,7 @@ import (
 	"time"
 
 	"github.com/cloudwego/eino/callbacks"
+	"github.com/cloudwego/eino/components/tool"
 	"github.com/cloudwego/eino/schema"
 )
 
@@ -110,8 +111,28 @@ func vcbDigest(v any) string {
 		return sb.String()
 	case error:
 		return "err"
+	case *schema.Message:
+		if x == nil {
+			return "<nil>"
+		}
+		return x.Content
+	case []*schema.Message:
+		m := map[string]any{}
+		vcbMergeMsgs(m, x)
+		return vcbDigest(m)
 	}
 	return fmt.Sprintf("%T:%v", v, v)
+}
+
+// tool results: one message per tool call, keyed by the tool-call id (= unit id); stream chunks carry nil for the other calls
+func vcbMergeMsgs(acc map[string]any, msgs []*schema.Message) {
+	for _, m := range msgs {
+		if m == nil {
+			continue
+		}
+		prev, _ := acc[m.ToolCallID].(string)
+		acc[m.ToolCallID] = prev + m.Content
+	}
 }
 
 func vcbFlatten(m map[string]any, out map[string]string) {
@@ -390,6 +411,18 @@ func vcbDrain(h *vcbHandler, info *callbacks.RunInfo, t string, recv func() (any
 					prev, _ := m[k].(string)
 					m[k] = prev + e
 				}
+			case *schema.Message:
+				if acc == nil {
+					acc = ""
+				}
+				if x != nil {
+					acc = acc.(string) + x.Content
+				}
+			case []*schema.Message:
+				if acc == nil {
+					acc = map[string]any{}
+				}
+				vcbMergeMsgs(acc.(map[string]any), x)
 			default:
 				acc = fmt.Sprintf("%T:%v", v, v)
 			}
@@ -469,20 +502,123 @@ func (r *vcbRun) newHandler(spec vcbHandlerSpec) callbacks.Handler {
 
 var errVcbInjected = errors.New("verif injected failure")
 
+// the body of a leaf unit (node body / tool call): gated, logs what it consumed and produced
+func (r *vcbRun) produce(id, in string) (string, error) {
+	fail := r.c.Fail == id
+	r.seq.bodyEnter(id)
+	r.rec.log("enter", map[string]any{"u": id, "in": in})
+	out := id + "(" + in + ")"
+	r.seq.bodyLeave(id)
+	r.rec.log("exit", map[string]any{"u": id, "out": out, "fail": fail})
+	if fail {
+		return "", errVcbInjected
+	}
+	return out, nil
+}
+
+// tools of the ToolsNode shape: own tool types; the ToolsNode wraps them with the callback aspect (they do not implement Checker),
+// with run info {tool name, GetType(), Tool} installed by callbacks.ReuseHandlers per tool call
+type vcbTool struct {
+	r *vcbRun
+	u *vcbUnit
+}
+
+func (t *vcbTool) Info(context.Context) (*schema.ToolInfo, error) {
+	return &schema.ToolInfo{Name: t.u.Name, Desc: "verif tool " + t.u.U}, nil
+}
+func (t *vcbTool) GetType() string { return t.u.Typ }
+
+type vcbInvTool struct{ vcbTool }
+
+func (t *vcbInvTool) InvokableRun(_ context.Context, args string, _ ...tool.Option) (string, error) {
+	return t.r.produce(t.u.U, args)
+}
+
+type vcbStrTool struct{ vcbTool }
+
+func (t *vcbStrTool) StreamableRun(_ context.Context, args string, _ ...tool.Option) (*schema.StreamReader[string], error) {
+	out, err := t.r.produce(t.u.U, args)
+	if err != nil {
+		return nil, err
+	}
+	n := len(t.u.U) + 1
+	return schema.StreamReaderFromArray([]string{out[:n], out[n:]}), nil
+}
+
+// shape tools: START -> ToolsNode(tn) -> END; the input message asks for one call of every tool (tool-call id = unit id)
+func (r *vcbRun) compileToolsShape() (func(opts []Option) (map[string]any, error), error) {
+	c := r.c
+	var tnUnit *vcbUnit
+	var tools []tool.BaseTool
+	var calls []schema.ToolCall
+	for i := range c.Units {
+		u := &c.Units[i]
+		if u.Comp == "ToolsNode" {
+			tnUnit = u
+		}
+		if u.Comp == "Tool" {
+			if c.Kinds[u.U] == "s" || c.Kinds[u.U] == "t" {
+				tools = append(tools, &vcbStrTool{vcbTool{r: r, u: u}})
+			} else {
+				tools = append(tools, &vcbInvTool{vcbTool{r: r, u: u}})
+			}
+			calls = append(calls, schema.ToolCall{ID: u.U, Function: schema.FunctionCall{Name: u.Name, Arguments: "x"}})
+		}
+	}
+	if tnUnit == nil {
+		return nil, fmt.Errorf("no ToolsNode unit")
+	}
+	tn, err := NewToolNode(context.Background(), &ToolsNodeConfig{Tools: tools})
+	if err != nil {
+		return nil, err
+	}
+	g := NewGraph[*schema.Message, []*schema.Message]()
+	key := tnUnit.Path[len(tnUnit.Path)-1]
+	if err := g.AddToolsNode(key, tn, WithNodeName(tnUnit.Name)); err != nil {
+		return nil, err
+	}
+	if err := g.AddEdge(START, key); err != nil {
+		return nil, err
+	}
+	if err := g.AddEdge(key, END); err != nil {
+		return nil, err
+	}
+	run, err := g.Compile(context.Background(), WithGraphName("N_top"))
+	if err != nil {
+		return nil, err
+	}
+	return func(opts []Option) (map[string]any, error) {
+		in := &schema.Message{Role: schema.Assistant, Content: "x", ToolCalls: calls}
+		res := map[string]any{}
+		if c.Mode == "stream" {
+			sr, err := run.Stream(context.Background(), in, opts...)
+			if err != nil {
+				return nil, err
+			}
+			defer sr.Close()
+			for {
+				chunk, e := sr.Recv()
+				if e == io.EOF {
+					return res, nil
+				}
+				if e != nil {
+					return nil, e
+				}
+				vcbMergeMsgs(res, chunk)
+			}
+		}
+		out, err := run.Invoke(context.Background(), in, opts...)
+		if err != nil {
+			return nil, err
+		}
+		vcbMergeMsgs(res, out)
+		return res, nil
+	}, nil
+}
+
 func (r *vcbRun) leafLambda(u *vcbUnit) *Lambda {
 	id := u.U
-	fail := r.c.Fail == id
-	produce := func(in string) (string, error) {
-		r.seq.bodyEnter(id)
-		r.rec.log("enter", map[string]any{"u": id, "in": in})
-		out := id + "(" + in + ")"
-		r.seq.bodyLeave(id)
-		r.rec.log("exit", map[string]any{"u": id, "out": out, "fail": fail})
-		if fail {
-			return "", errVcbInjected
-		}
-		return out, nil
-	}
+	produce := func(in string) (string, error) { return r.produce(id, in) }
 	typ := WithLambdaType(u.Typ)
 	switch r.c.Kinds[id] {
 	case "s":
@@ -772,6 +908,12 @@ func (r *vcbRun) runCase() {
 	var call func(opts []Option) (map[string]any, error)
 	if c.Shape == "sbr" || c.Shape == "nsbr" {
 		call, err = r.compileBranchShape()
+		if err != nil {
+			note("BUILD-FAILED: " + err.Error())
+			return
+		}
+	} else if c.Shape == "tools" {
+		call, err = r.compileToolsShape()
 		if err != nil {
 			note("BUILD-FAILED: " + err.Error())
 			return
